@@ -176,6 +176,41 @@ def run(ctx, out):
         x: T
     if not (G[int](1) == G(1)) or not (G[int](1) == G[float](1)) or G[int](1) == G[int](2):
         out.violation('C16:eq-generic-parameters', 'G[int](1) == G(1) / G[float](1) does not hold', {})
+    # ... but a class DERIVED from a parametrised generic is a class of its own: never equal to the generic base or to a sibling,
+    # equal to itself whatever its own parameters
+    U = t.TypeVar('U')
+
+    class IntBox(G[int]):
+        pass
+
+    class OtherBox(G[int]):
+        pass
+
+    class Wide(G[int]):
+        y: int = 0
+
+    class Pair(G[U], t.Generic[U]):
+        z: int = 0
+
+    def eqv(a, b):
+        try:
+            return a == b
+        except Exception as e:
+            return f'raised {type(e).__name__}'
+    rows = [
+        ('IntBox(1) == G[int](1)', eqv(IntBox(1), G[int](1)), False), ('G[int](1) == IntBox(1)', eqv(G[int](1), IntBox(1)), False),
+        ('IntBox(1) == G(1)', eqv(IntBox(1), G(1)), False), ('IntBox(1) == OtherBox(1)', eqv(IntBox(1), OtherBox(1)), False),
+        ('IntBox(1) == IntBox(1)', eqv(IntBox(1), IntBox(1)), True), ('IntBox(1) != IntBox(2)', eqv(IntBox(1), IntBox(2)), False),
+        ('Wide(1, 2) == G[int](1)', eqv(Wide(1, 2), G[int](1)), False), ('G[int](1) == Wide(1, 2)', eqv(G[int](1), Wide(1, 2)), False),
+        ('Wide(1, 2) == Wide(1, 2)', eqv(Wide(1, 2), Wide(1, 2)), True),
+        ('Pair[int](1, 2) == Pair(1, 2)', eqv(Pair[int](1, 2), Pair(1, 2)), True), ('Pair[int](1, 2) == Pair[float](1, 2)', eqv(Pair[int](1, 2), Pair[float](1, 2)), True),
+        ('Pair[int](1, 2) == G[int](1)', eqv(Pair[int](1, 2), G[int](1)), False), ('Pair(1, 2) == Pair(1, 3)', eqv(Pair(1, 2), Pair(1, 3)), False),
+    ]
+    n += len(rows)
+    for label, got, want in rows:
+        if got is not want:
+            out.violation('C16:eq-derived-from-parametrised-generic', f'{label} gave {got!r}, expected {want!r}: equality compares the class '
+                          '(ignoring only the generic parameters of that same class)', {'comparison': label})
     out.evaluations += n
     out.sample({'case': items[7][1][:5], 'observed (==, <, <=, >, >=)': list(items[7][1][5])})
     if any(f in ctx['failed_files'] for f in ('Model/ClassSem.v', 'Run/AgreeSem.v')):
